@@ -99,16 +99,13 @@ func (s *sim) subScan(cmd, key string, count int) (names []string, vals []string
 // (no reference model involved).
 func (s *sim) check09(x tuple, ctx string) {
 	k := x.key
-	if s.taint[x.id()] != "" {
+	if s.taint[x.id()] != "" && !s.fresh[x.id()] {
 		return
 	}
 	bad := func(rule string, format string, args ...interface{}) {
 		key := s.cur[x.id()]
 		if !survey(key, "c09 %s %s %q %s: %s", rule, x.typ, k, ctx, fmt.Sprintf(format, args...)) {
 			s.c.Violate(s.prop("C09"), rule, key, "%s: %s %q: %s", ctx, x.typ, k, fmt.Sprintf(format, args...))
-		}
-		if key != "" {
-			s.taint[x.id()] = key
 		}
 	}
 	exist := func(cmd string, n int) {
